@@ -11,8 +11,20 @@ func GenMix(t *rapid.T, sockets bool) []Instance {
 	n := rapid.IntRange(2, 6).Draw(t, "resources")
 	var out []Instance
 	for len(out) < n {
-		k := rapid.IntRange(0, 9).Draw(t, "kind")
+		k := rapid.IntRange(0, 12).Draw(t, "kind")
 		switch k {
+		case 10:
+			out = append(out, NewPLog())
+		case 11:
+			out = append(out, NewCustomIn(rapid.IntRange(0, 4).Draw(t, "prefill")))
+		case 12:
+			if sockets {
+				if rapid.Bool().Draw(t, "crdt") {
+					out = append(out, NewCRDTCounter())
+				} else {
+					out = append(out, NewTwoPCCell())
+				}
+			}
 		case 0:
 			out = append(out, NewLocal())
 		case 1:
@@ -75,7 +87,12 @@ func GenProgram(t *rapid.T, insts []Instance, maxFaults int) *Program {
 			}
 			wantRead := rapid.Bool().Draw(t, "read")
 			if wantRead && in.CanRead() {
-				if in.Consuming() {
+				if e, isE := in.(EmptyReadOK); in.Consuming() && isE && e.EmptyReadOK() {
+					// a read of the empty queue is a defined operation (it yields the resource's default)
+					if avail[ri] > 0 {
+						avail[ri]--
+					}
+				} else if in.Consuming() {
 					if avail[ri] == 0 {
 						// nothing to read in the fault-free execution; pick something else
 						if rapid.IntRange(0, 3).Draw(t, "skipread") > 0 {
